@@ -73,6 +73,8 @@ class Cx:
         self.precondition_failed = False
         self.npaths = 0
         self.trivial = 0
+        self.nf_discharged = 0
+        self.normal_form = os.environ.get("VERIF_NO_NF") != "1"
 
     # ---- inputs --------------------------------------------------------
     def _get(self, name, lo=-2.0, hi=2.0):
@@ -215,6 +217,9 @@ class Cx:
                     zx, zy = core.z(x), core.z(y)
                     if zx.eq(zy):
                         continue
+                    if self.normal_form and self._nf_equal(zx, zy):
+                        self.nf_discharged += 1
+                        continue
                     goals.append((idx, part, zx == zy))
             if not goals:
                 # both sides are the same terms: nothing for the solver to decide; counted, not stored
@@ -259,6 +264,16 @@ class Cx:
         A = numpy.asarray(A)
         self.prove_eq(label, A, numpy.zeros(A.shape, dtype=int) if A.dtype != object
                       else numpy.zeros(A.shape, dtype=int), **kw)
+
+    def _nf_equal(self, zx, zy):
+        """polynomial identity decided by z3's rewriter: the difference in sorted sum-of-monomials normal
+        form is the numeral 0 (equivalence-preserving rewriting; bounded number of steps)"""
+        import z3
+        try:
+            d = z3.simplify(zx - zy, som=True, sort_sums=True, max_steps=int(os.environ.get("NF_STEPS", "300000")))
+        except z3.Z3Exception:
+            return False
+        return z3.is_rational_value(d) and d.numerator_as_long() == 0
 
     def failed_so_far(self):
         """has any assertion on this path already been refuted (sym: sat; replay: violated)?  Harnesses use
@@ -359,6 +374,7 @@ def run_instance_sym(h, params, qtimeout, want_smt2=True):
     twin_ok = True
     reduced_twins = 0
     trivial = 0
+    nf_total = 0
     inputs = set()
     status = "ok"
     err = None
@@ -405,6 +421,7 @@ def run_instance_sym(h, params, qtimeout, want_smt2=True):
             rec["decisions"] = list(ENGINE.decisions)
         all_records += cx.records
         trivial += cx.trivial
+        nf_total += cx.nf_discharged
         samples += cx.samples
         for n in cx.notes:
             if n not in notes:
@@ -417,7 +434,7 @@ def run_instance_sym(h, params, qtimeout, want_smt2=True):
         npaths += 1
     return dict(harness=h.name, params=params, status=status, error=err, paths=npaths,
                 records=all_records, notes=notes, assumptions=assumption_notes,
-                samples=samples, twin_ok=twin_ok, reduced_twins=reduced_twins, trivial=trivial, wall=round(time.time() - t0, 3),
+                samples=samples, twin_ok=twin_ok, reduced_twins=reduced_twins, trivial=trivial, normal_form=nf_total, wall=round(time.time() - t0, 3),
                 solver_s=round(sum(r.get("secs", 0) for r in all_records), 3),
                 ninputs=len(inputs))
 
@@ -560,6 +577,7 @@ def run_property(pid, tier, replay_path=None, only=None, nproc=None):
     known = load_known()
     obligations = discharged = nsat = nunknown = 0
     trivial_total = 0
+    nf_grand = 0
     inconclusive = []
     violations = []
     from vf import xhair as _xh
@@ -590,7 +608,9 @@ def run_property(pid, tier, replay_path=None, only=None, nproc=None):
             if len(samples) < 3:
                 samples.append(dict(harness=hname, params=params, **smp))
         sat_seen = set()
-        ntriv = res.get("trivial", 0)
+        nnf = res.get("normal_form", 0)
+        nf_grand += nnf
+        ntriv = res.get("trivial", 0) + nnf
         obligations += ntriv
         discharged += ntriv
         trivial_total += ntriv
@@ -728,7 +748,7 @@ def run_property(pid, tier, replay_path=None, only=None, nproc=None):
                   "solver had to decide it"),
             samples=samples if samples else [dict(note="no non-trivial query sample captured")],
             sat=nsat, unknown=nunknown, paths=total_paths, solver_s=round(solver_s, 3),
-            syntactically_identical=trivial_total,
+            syntactically_identical=trivial_total - nf_grand, polynomial_normal_form=nf_grand,
             functions_encoded=funcs, source_hashes=files,
             bounds={h.name: dict(bound=h.bound, outside=h.out,
                                  instances=(h.quick if tier == "quick" else h.thorough))
